@@ -104,7 +104,6 @@ def r2(ctx):
             ctx.obligation(ok)
             if not ok:
                 ctx.violation("calc/%s" % op, ctx.where(CALC), "%s must compute left %s right; calc(%s, %s) evaluates to %r" % (op, sym[op], x, y, got))
-                break
     ctx.covered("ArithmeticOp::calc evaluated per operator on three operand pairs (operator and operand order)", n, distinct_keys=list(want), exhaustive=True)
     ctx.floor(n, 15, "evaluations of ArithmeticOp::calc", CALC)
     # the evaluator applies calc to (left value, right value)
